@@ -34,6 +34,19 @@ type value struct {
 	Crafted string // family name for crafted separator values
 }
 
+// CraftedPairs returns node pairs that differ in content although the flattened equality encoding of both coincides.
+func CraftedPairs() [][2]*sbom.Node {
+	return [][2]*sbom.Node{
+		{{Id: "x", Name: "x:protobom.protobom.Node.version:1"}, {Id: "x", Name: "x", Version: "1"}},
+		{{Id: "x", Hashes: map[int32]string{1: "ab1", 2: "cd"}}, {Id: "x", Hashes: map[int32]string{1: "ab", 12: "cd"}}},
+		{{Id: "x", Hashes: map[int32]string{1: "a2:b"}}, {Id: "x", Hashes: map[int32]string{1: "a", 2: "b"}}},
+		{{Id: "x", Identifiers: map[int32]string{1: "a:identifiers[2]:b"}}, {Id: "x", Identifiers: map[int32]string{1: "a", 2: "b"}}},
+		{{Id: "x", Suppliers: []*sbom.Person{{Name: "a)o(false)email(e"}}}, {Id: "x", Suppliers: []*sbom.Person{{Name: "a", Email: "e"}}}},
+		{{Id: "x", ExternalReferences: []*sbom.ExternalReference{{Url: "u(c)k"}}}, {Id: "x", ExternalReferences: []*sbom.ExternalReference{{Url: "u", Comment: "k"}}}},
+		{{Id: "x", Licenses: []string{"MIT:protobom.protobom.Node.licenses[1]:GPL"}}, {Id: "x", Licenses: []string{"MIT", "GPL"}}},
+	}
+}
+
 func nodeValues(thorough bool) []value {
 	var vs []value
 	addBase := func(label string, base *sbom.Node, depth int) {
@@ -271,6 +284,9 @@ func hashConcat(m map[int32]string) string {
 	}
 	return s
 }
+
+// EncodingCollisionTrigger names the known-finding family a pair of differing values falls into ("" = none).
+func EncodingCollisionTrigger(a, b proto.Message) string { return discriminationTrigger(a, b) }
 
 func discriminationTrigger(a, b proto.Message) string {
 	na, oka := a.(*sbom.Node)
